@@ -56,8 +56,14 @@ let md_of s : metadata =
             match split '/' hd with
             | [n; err; internal] ->
               let parts = if ps = "." then [] else
-                  List.map (fun pe -> match split '/' pe with
-                      | [idx; perr; ld] -> { mp_idx = z_of_hex idx; mp_err = z_of_hex perr; mp_leader = z_of_hex ld }
+                  List.map (fun pe ->
+                      let ids x = if x = "." then [] else List.map z_of_hex (split '+' x) in
+                      match split '/' pe with
+                      | [idx; perr; ld] -> { mp_idx = z_of_hex idx; mp_err = z_of_hex perr; mp_leader = z_of_hex ld;
+                                             mp_replicas = []; mp_isr = []; mp_offline = [] }
+                      | [idx; perr; ld; rep; isr; off] ->
+                        { mp_idx = z_of_hex idx; mp_err = z_of_hex perr; mp_leader = z_of_hex ld;
+                          mp_replicas = ids rep; mp_isr = ids isr; mp_offline = ids off }
                       | _ -> failwith "md partition") (split ',' ps) in
               { mt_name = name_of n; mt_err = z_of_hex err; mt_internal = (internal = "1"); mt_parts = parts }
             | _ -> failwith "md topic") (split ';' ts) in
@@ -88,10 +94,23 @@ let enc_cluster (c : cluster) =
 let enc_md (m : metadata) =
   let bs = List.map (fun b -> hex_of_z b.mb_id ^ "@" ^ hex_of_n b.mb_addr) m.md_brokers in
   let ts = List.map (fun t ->
-      let ps = List.map (fun p -> hex_of_z p.mp_idx ^ "/" ^ hex_of_z p.mp_err ^ "/" ^ hex_of_z p.mp_leader) t.mt_parts in
+      let ids l = if l = [] then "." else String.concat "+" (List.map hex_of_z l) in
+      let ps = List.map (fun p -> hex_of_z p.mp_idx ^ "/" ^ hex_of_z p.mp_err ^ "/" ^ hex_of_z p.mp_leader
+                                  ^ "/" ^ ids p.mp_replicas ^ "/" ^ ids p.mp_isr ^ "/" ^ ids p.mp_offline) t.mt_parts in
       enc_name t.mt_name ^ "/" ^ hex_of_z t.mt_err ^ "/" ^ (if t.mt_internal then "1" else "0") ^ ":" ^ dot (String.concat "," ps))
       m.md_topics in
   hex_of_z m.md_controller ^ "~" ^ dot (String.concat "," bs) ^ "~" ^ dot (String.concat ";" ts)
+
+(* Client.Metadata's view *)
+let enc_cm (r : cm_response) =
+  let eb (b : md_broker) = hex_of_z b.mb_id ^ "@" ^ hex_of_n b.mb_addr in
+  let ebs l = if l = [] then "." else String.concat "+" (List.map eb l) in
+  let ts = List.map (fun t ->
+      let ps = List.map (fun p -> hex_of_z p.cp_id ^ "/" ^ hex_of_z p.cp_err ^ "/" ^ eb p.cp_leader ^ "/"
+                                  ^ ebs p.cp_replicas ^ "/" ^ ebs p.cp_isr) t.ct_parts in
+      enc_name t.ct_name ^ "/" ^ (if t.ct_internal then "1" else "0") ^ "/" ^ hex_of_z t.ct_err ^ ":" ^ dot (String.concat "," ps))
+      r.cm_topics in
+  eb r.cm_controller ^ "~" ^ dot (String.concat "," (List.map eb r.cm_brokers)) ^ "~" ^ dot (String.concat ";" ts)
 
 let enc_err = function
   | ENoTopic t -> "err:notopic:" ^ enc_name t
@@ -247,6 +266,12 @@ let eval (op : string) (a : string list) : string =
   match op, a with
   | "sel", [_; cmin; cmax; bmin; bmax] ->
     hex_of_z (select_version (z_of_hex cmin) (z_of_hex cmax) (z_of_hex bmin) (z_of_hex bmax))
+  | "cmeta", [names; m] ->
+    enc_cm (client_metadata (filter_metadata (names_of names) (normalize (md_of m))))
+  | "setup", [adv; client] ->
+    String.concat "," (List.map (function
+        | SReq (k, v) -> hex_of_z k ^ ":" ^ hex_of_z v
+        | SRawToken -> "24:raw") (connection_setup true (negotiate (ranges_of client) (ranges_of adv))))
   | "prep", [v] -> hex_of_z (produce_record_version (z_of_hex v))
   | "class", [api] ->
     let api = z_of_hex api in
@@ -273,7 +298,7 @@ let eval (op : string) (a : string list) : string =
               | _ -> failwith "upd step") in
         p := update !p m e;
         enc_state !p) steps in
-    String.concat "+" res
+    String.concat "#" res
   | "send", [m; req] ->
     let p = pool_of_md (md_of m) in
     (match send_request p.ps_layout p.ps_conns (one_request req) no_coord with
